@@ -3,15 +3,19 @@
 // exists to reach an atom through each kind of call the C02 statement lists.
 package y
 
+// Cur tags every printed line with the scenario (goroutine) that printed it. Goroutines are only switched
+// inside maybe(), which saves and restores it across the suspension.
+var Cur int
+
 // Tr records a trace value: printed at once, so that output survives a crash.
-func Tr(v int) int { println(v); return v }
+func Tr(v int) int { println(Cur, v); return v }
 
 // Y is the yield atom.
-func Y(k int) int { println(-k); maybe(k); return k }
+func Y(k int) int { println(Cur, -k); maybe(k); return k }
 
 // B and S are atoms passing a bool / string through.
-func B(k int, b bool) bool       { println(-k); maybe(k); return b }
-func S(k int, s string) string { println(-k); maybe(k); return s }
+func B(k int, b bool) bool       { println(Cur, -k); maybe(k); return b }
+func S(k int, s string) string { println(Cur, -k); maybe(k); return s }
 
 type T struct{ N int }
 
